@@ -45,6 +45,7 @@ struct crec {
         int submitted, returned; /* by the primary */
         int sec_returned;        /* by the secondary */
         char suite[48];
+        char key_out[160], key_tag[160]; /* identities of an output / tag mismatch (same as item_check would use) */
 };
 
 struct chdr {
@@ -134,7 +135,13 @@ pick(struct rng *r, const struct suite **cs, const struct suite **hs)
                                     "zuc-eia3",  "zuc256-eia3", "snow3g-uia2", "sha224",      "sha384",      "hmac-sm3" };
         static const char *an[] = { "aes-gcm-128", "aes-ccm-128", "chacha20-poly1305", "aes-gcm-256" };
         *cs = *hs = NULL;
-        int k = (int) rng_below(r, 10);
+        int k = (int) rng_below(r, 14);
+        if (k >= 10) {
+                /* one suite per out-of-order manager (direction chosen at the call site stays random) */
+                int d;
+                item_pick_ooo(r, cs, hs, &d);
+                return;
+        }
         if (k < 4)
                 *cs = find_suite(g_cipher_suites, g_n_cipher_suites, cn[rng_below(r, ARRAY_SZ(cn))]);
         else if (k < 7)
@@ -233,6 +240,8 @@ run_primary(struct mmgr **out_mm)
                 struct item *it = P[i];
                 memset(rc, 0, sizeof *rc);
                 snprintf(rc->suite, sizeof rc->suite, "%s+%s", cs ? cs->name : "null", hs ? hs->name : "null");
+                item_mismatch_key(it, "C16", variant_name(mm->variant), 0, rc->key_out, sizeof rc->key_out);
+                item_mismatch_key(it, "C16", variant_name(mm->variant), 1, rc->key_tag, sizeof rc->key_tag);
                 if (it->cipher != IMB_CIPHER_NULL && it->have_ref && it->dst_len <= EXP_MAX) {
                         rc->out = it->inplace ? it->src + it->c_off : it->dst;
                         rc->out_len = it->dst_len;
@@ -325,11 +334,20 @@ sec_done(struct mmgr *mm, IMB_JOB *job, void *arg)
         sec_next++;
         if (job->status != IMB_STATUS_COMPLETED)
                 sec_viol("status", "job %d (%s) handed back with status %d", idx, rc->suite, (int) job->status);
-        if (rc->out && memcmp(rc->out, rc->exp_out, rc->out_len))
-                sec_viol("output", "job %d (%s) output differs from the reference model after re-attaching (len %u)", idx,
-                         rc->suite, rc->out_len);
-        if (rc->tag && memcmp(rc->tag, rc->exp_tag, rc->tag_len))
-                sec_viol("tag", "job %d (%s) tag differs from the reference model after re-attaching", idx, rc->suite);
+        if (rc->out && memcmp(rc->out, rc->exp_out, rc->out_len)) {
+                char det[300];
+                snprintf(det, sizeof det, "job %d (%s) output differs from the reference model after re-attaching in a %s process (len %u)",
+                         idx, rc->suite, sec_kind_name, rc->out_len);
+                ev_violation("C16", rc->key_out, det, NULL);
+                H->sec_viol++;
+        }
+        if (rc->tag && memcmp(rc->tag, rc->exp_tag, rc->tag_len)) {
+                char det[300];
+                snprintf(det, sizeof det, "job %d (%s) tag differs from the reference model after re-attaching in a %s process", idx,
+                         rc->suite, sec_kind_name);
+                ev_violation("C16", rc->key_tag, det, NULL);
+                H->sec_viol++;
+        }
         H->sec_returned_n++;
 }
 
